@@ -1144,8 +1144,8 @@ def run(ctx):
     core.check_props(ctx, have_props)
     tie_facts = run_tie(ctx)
     init_pool(ctx)
-    families = ["ed25519"] * 6 + ["rsa", "ecdsa"] if not thorough else ["ed25519", "rsa", "ecdsa", "gpg"]
-    use_gpg = thorough
+    families = ["ed25519"] * 6 + ["rsa", "ecdsa", "gpg"] if not thorough else ["ed25519", "rsa", "ecdsa", "gpg"]
+    use_gpg = True          # (a few gpg-signed files with every signature-entry edit also in the quick tier)
     model = core.Model()
     violations = 0
     for pr in locale_roundtrip(ctx):
